@@ -241,6 +241,43 @@ def check_writers(ctx, num=3):
                    w.fn, w.node, detail=f"{w.how} in {who}; allowed writers: {sorted(allowed)}")
 
 
+def check_counts_init(ctx, num=3):
+    """The per-state counts start consistent with the per-operator states: every count 0, then +1 for the state stored for each operator
+    (the invariant count[s] == #{operators in state s} that transition() preserves is established here)."""
+    P = ctx.P
+    ini = P.fn(RS, "PipelineRuntimeStatus.__init__")
+    ctx.touch(ini)
+    g = cfg_of(ini, subst_env=False)
+    cdef = [n for n in own_nodes(ini.node) if isinstance(n, (ast.Assign, ast.AnnAssign)) and n.value is not None
+            and any(self_attr(t, "state_counts") for t in (n.targets if isinstance(n, ast.Assign) else [n.target]))]
+    ok0 = False
+    d = f"{[stmt_text(n) for n in cdef]}"
+    if len(cdef) == 1:
+        v = cdef[0].value
+        if isinstance(v, ast.DictComp) and len(v.generators) == 1 and not v.generators[0].ifs and norm.U(v.generators[0].iter) == "OperatorState" \
+                and isinstance(v.generators[0].target, ast.Name) and norm.is_name(v.key, v.generators[0].target.id) \
+                and isinstance(v.value, ast.Constant) and v.value.value == 0 and not isinstance(v.value.value, bool):
+            ok0 = True
+        elif isinstance(v, ast.Dict) and v.keys and all(k is not None and state_of(k) for k in v.keys) and all(isinstance(x, ast.Constant) and x.value == 0 for x in v.values):
+            ok0 = {state_of(k) for k in v.keys} == set(read_enum_members(P, RS, "OperatorState"))
+        elif isinstance(v, ast.Call) and norm.call_name(v) in ("defaultdict", "Counter") and (not v.args or norm.U(v.args[0]) == "int"):
+            ok0 = True
+    ctx.ob(num, "K5", "every per-state count starts at 0", ok0, ini, cdef[0] if cdef else ini.node, construct="state_counts = {state: 0 for state in OperatorState}", detail=d)
+    stores = [n for n in own_nodes(ini.node) if isinstance(n, ast.Assign) and any(isinstance(t, ast.Subscript) and self_attr(t.value, "operator_states") for t in n.targets)]
+    incs = [n for n in own_nodes(ini.node) if isinstance(n, ast.AugAssign) and isinstance(n.target, ast.Subscript) and self_attr(n.target.value, "state_counts")]
+    ok = len(stores) == 1 and len(incs) == 1
+    d = f"stores: {[stmt_text(n) for n in stores]}; count updates: {[stmt_text(n) for n in incs]}"
+    if ok:
+        st, inc = stores[0], incs[0]
+        lp = enclosing_for(st, ini.node)
+        ok = isinstance(inc.op, ast.Add) and isinstance(inc.value, ast.Constant) and inc.value.value == 1 and not isinstance(inc.value.value, bool) \
+            and state_of(inc.target.slice) is not None and state_of(inc.target.slice) == state_of(st.value) and lp is not None and enclosing_for(inc, ini.node) is lp \
+            and g.control_equivalent(st, inc, lp)
+        d += f"; same state, +1, once per operator together with the store: {ok}"
+    ctx.ob(num, "K3", "the count of the initial state grows by one for every operator registered (counts and per-operator states start consistent)", ok, ini,
+           incs[0] if incs else ini.node, construct="state_counts[PENDING] += 1 per operator", detail=d)
+
+
 def check_assignment_ctor(ctx, num=4):
     P = ctx.P
     f = P.fn(AS, "Assignment.__init__")
@@ -476,6 +513,7 @@ def run(ctx):
     c01.check_check_transition(ctx)      # the table is actually consulted for every request (filed under #1 / #2 of this property)
     check_transition_fn(ctx, 2)
     check_writers(ctx, 3)
+    check_counts_init(ctx, 3)
     check_assignment_ctor(ctx, 4)
     check_container_factory(ctx, 5)
     check_suffix_slices(ctx, 6)
